@@ -63,7 +63,11 @@ func c08Case(s *core.Sub, cv *core.Conv, d []byte, depth int, st *c08State) uint
 			return h
 		}
 		if !bytes.Equal(got, st.exp) {
-			s.Violate(fmt.Sprintf("quote-wrap-differs:depth%d:%s", k, lastBlockKind(cv, d)), cv.Cfg.String(), d, nil,
+			sig := fmt.Sprintf("quote-wrap-differs:depth%d:%s", k, lastBlockKind(cv, d))
+			if c08BracketSpanAtLimit(d, k) {
+				sig = "quote-wrap-differs:pending-bracket-span-at-998-limit"
+			}
+			s.Violate(sig, cv.Cfg.String(), d, nil,
 				fmt.Sprintf("prefixing every line with '> ' %d time(s) does not wrap the same content; prefixed source %s", k, core.Q(st.cur)), string(st.exp), string(got))
 			return h
 		}
@@ -73,6 +77,22 @@ func c08Case(s *core.Sub, cv *core.Conv, d []byte, depth int, st *c08State) uint
 }
 
 type c08State struct{ exp, exp2, cur, tmp []byte }
+
+// c08BracketSpanAtLimit is the structural fingerprint of known finding F3: the document has open brackets whose span in
+// the source, from the first '[' to the last one, crosses at least one line ending and lies within the few bytes by which
+// k levels of "> " prefixes stretch it around the parser's 998-byte pending-bracket limit.
+func c08BracketSpanAtLimit(d []byte, k int) bool {
+	first, last := bytes.IndexByte(d, '['), bytes.LastIndexByte(d, '[')
+	if first < 0 || last <= first {
+		return false
+	}
+	nl := bytes.Count(d[first:last], []byte("\n"))
+	if nl == 0 {
+		return false
+	}
+	span := last + 1 - first
+	return span <= 1000 && span >= 998-2*k*nl-2
+}
 
 // lastBlockKind names the kind of the first top-level block whose rendering differs is hard to know; we use the
 // kinds of the top-level blocks of D as the structural fingerprint.
@@ -173,6 +193,10 @@ func runC08(r *core.Run) {
 		st := &c08StatePool{}
 		nbhdSub(r, "nbhd-spec/"+cn, core.MustCfg(cn), func(s *core.Sub, cv *core.Conv, w []byte) {
 			c08Case(s, cv, w, 2, st.get(cv))
+		})
+		st4 := &c08StatePool{}
+		lengthSub(r, "lengths/"+cn, core.MustCfg(cn), core.Pick(r, 1100, 2200), func(s *core.Sub, cv *core.Conv, w []byte) {
+			c08Case(s, cv, w, 1, st4.get(cv))
 		})
 		st3 := &c08StatePool{}
 		replSub(r, "replication/"+cn, core.MustCfg(cn), core.Pick(r, 150, 300), func(s *core.Sub, cv *core.Conv, w []byte) {
